@@ -52,6 +52,7 @@ def match_known(kind: str, known: list[dict]) -> dict | None:
 def run_case(mod, case) -> dict:
     """Run one case.  Exceptions from the code under test -> 'crash' violation; others -> harness."""
     try:
+        common.reset_globals()
         res = mod.check_case(case)
         if not isinstance(res, Result):
             raise common.HarnessError("check_case must return Result")
